@@ -302,11 +302,34 @@ def run_ciq(case, ctx):
         kap = float((ev[..., -1] / ev[..., 0]).max())
     else:
         op = DenseLinearOperator(A)
+        okind = ("dense", "dense", "dense", "diag", "constant_diag", "kron_diag")[(case["seed"] >> 4) % 6] if case["mode"] == "sqrt_inv_matmul" and "lhs_rows" in case else "dense"
+        if okind != "dense":
+            # classes that specialise sqrt_inv_matmul (diagonal family): exact, every batch shape, with and without the left factor
+            from linear_operator.operators import ConstantDiagLinearOperator, KroneckerProductDiagLinearOperator
+
+            if okind == "diag":
+                dv = ev.clone().to(dt)
+                op = DiagLinearOperator(dv)
+            elif okind == "constant_diag":
+                dv = ev[..., :1].to(dt)
+                op = ConstantDiagLinearOperator(dv, n)
+                dv = dv.expand(*batch, n)
+            else:
+                n1 = 2 if n % 2 == 0 and n >= 4 else 1
+                d1, d2 = ev[..., :n1].to(dt), ev[..., : n // n1].to(dt)
+                op = KroneckerProductDiagLinearOperator(DiagLinearOperator(d1), DiagLinearOperator(d2))
+                dv = (d1.unsqueeze(-1) * d2.unsqueeze(-2)).reshape(*batch, n)
+            A64 = torch.diag_embed(dv.to(torch.float64))
+            ev = torch.linalg.eigvalsh(A64)
+            kap = float((ev[..., -1] / ev[..., 0]).max())
     cols = case["cols"]
     R = torch.randn(*batch, n, cols, generator=g, dtype=torch.float64).to(dt)
     kdec = int(round(math.log10(max(kap, 1.0))))
     kb = f"{case['family']}|k1e{kdec}|nq{case['nq']}|p{int(usep)}|b{len(batch)}"
     info = {f"n{n}", case["family"], f"kappa1e{kdec}", f"nq{case['nq']}"} | ({"batched"} if batch else set()) | ({"precond"} if usep else set())
+    if not usep and okind != "dense":
+        info.add("op:" + okind)
+        kb += "|" + okind
     kw = dict(cls="contour_integral_quad" if case["mode"] == "ciq" else "sqrt_inv_matmul", path="precond" if usep else "plain", tags={"precond" if usep else "plain"}, info=info)
     ctx.stat("ciq_runs")
     import contextlib
